@@ -87,6 +87,7 @@ type KVParams struct {
 	PSearch     bool
 	BadEnds     float64 // probability that a write transaction ends in rollback / fn error
 	ManyKeys    float64 // probability that the run uses a large key set (B+ tree splits)
+	Backward    bool    // the clock may also step backwards (TTL checks only)
 	Boundary    bool    // scan offsets and limits also from negative and extreme values (C20)
 	BigP        float64 // probability that a multi-op write transaction carries an oversized entry (its commit must fail)
 	Restart     float64 // probability of a dirty restart step after a transaction
@@ -229,7 +230,11 @@ func KV(r *core.Rng, p KVParams) *prog.Program {
 	}
 	for i := 0; i < ntx; i++ {
 		if p.Advance && r.Bool(0.35) {
-			pg.Steps = append(pg.Steps, advanceStep(r))
+			st := advanceStep(r)
+			if p.Backward && r.Bool(0.2) {
+				st.D = -st.D
+			}
+			pg.Steps = append(pg.Steps, st)
 		}
 		nops := 1
 		if r.Bool(0.4) {
